@@ -119,6 +119,19 @@ def _bad_operand(rng, op, dense, g, spec=None, opobj=None):
         if batch:
             sizes = [batch[0] + 1] + batch[1:] + [n, m]
             out.append(("non_singleton", (lambda o: o.expand(*sizes)), (lambda: dense.expand(*sizes))))
+            # expand goes one way only: asking for size 1 (or -1 next to a new leading dimension of the wrong size) where the operator
+            # already has a non-singleton batch dimension is refused by torch
+            for pos, bsz in enumerate(batch):
+                if bsz > 1:
+                    s1 = batch[:pos] + [1] + batch[pos + 1:] + [n, m]
+                    out.append((f"shrink_to_one@{pos}", (lambda o, s1=s1: o.expand(*s1)), (lambda s1=s1: dense.expand(*s1))))
+                    s1m = batch[:pos] + [1] + batch[pos + 1:] + [-1, -1]
+                    out.append((f"shrink_to_one@{pos}/-1", (lambda o, s1m=s1m: o.expand(*s1m)), (lambda s1m=s1m: dense.expand(*s1m))))
+                    s2 = [2] + batch[:pos] + [1] + batch[pos + 1:] + [n, m]
+                    out.append((f"shrink_to_one@{pos}/new_leading", (lambda o, s2=s2: o.expand(*s2)), (lambda s2=s2: dense.expand(*s2))))
+                    break
+            fewer = batch[1:] + [n, m]
+            out.append(("fewer_dims", (lambda o: o.expand(*fewer)), (lambda: dense.expand(*fewer))))
         sizes2 = batch + [n + 1, m]
         out.append(("matrix_dim", (lambda o: o.expand(*sizes2)), (lambda: dense.expand(*sizes2))))
     elif op.startswith("getitem"):
